@@ -180,6 +180,37 @@ pub struct Job {
     /// site "cqe:<batch>:<idx>" with value = the completion result to report
     #[serde(default)]
     pub faults: Vec<(String, i64)>,
+    /// E3: run `ops` as the set-up, then these per-thread programs under the cooperative
+    /// scheduler with the given choice prefix
+    #[serde(default)]
+    pub sched: Option<SchedSpec>,
+}
+
+#[derive(Clone, Debug, Serialize, Deserialize)]
+pub struct SchedSpec {
+    pub threads: Vec<Vec<Op>>,
+    pub prefix: Vec<usize>,
+}
+
+#[derive(Clone, Debug, Serialize, Deserialize, Default)]
+pub struct Decision {
+    /// enabled threads in canonical order (the thread that ran last first, if enabled)
+    pub enabled: Vec<usize>,
+    pub chosen: usize,
+    /// the thread that ran last is among the enabled ones (switching away = preemption)
+    pub last_enabled: bool,
+    /// names of the points the enabled threads are parked at
+    pub at: Vec<String>,
+}
+
+#[derive(Clone, Debug, Serialize, Deserialize, Default)]
+pub struct SchedOut {
+    pub decisions: Vec<Decision>,
+    /// per thread, per op: (result, decision index at call, decision index at return)
+    pub results: Vec<Vec<(Res, usize, usize)>>,
+    pub final_drain: Vec<Ent>,
+    pub physical: Vec<Ent>,
+    pub status: String,
 }
 
 /// One recorded durable mutation (paths relative to the job's root directory), or a
@@ -238,6 +269,8 @@ pub struct JobResult {
     pub died_at: Option<usize>,
     #[serde(default)]
     pub trace: Vec<Ev>,
+    #[serde(default)]
+    pub sched: Option<SchedOut>,
 }
 
 pub fn fnv64(data: &[u8]) -> u64 {
